@@ -775,9 +775,9 @@ class NetworkGraph(AbstractBaseIR):
 
             # the local aliases of the edge operator must be pairwise distinct, also when the source and the target
             # variable share their name or a user variable is called `weight`
-            if w_str == t_str:
+            if w_str in (t_str, tvar):
                 w_str = f'{w_str}_edge'
-            if s_str in (t_str, w_str):
+            if s_str in (t_str, w_str, tvar):
                 s_str = f'{s_str}_source'
 
             # case 0g: global edge — weight is a 0-d (scalar) array (used by
